@@ -23,6 +23,11 @@ Clauses (bands frozen in vlib/c10_band.json after calibration on the unchanged t
   A3  the realised noise  (Z_noisy - Z_ideal) / (pct/100 * |Z_ideal|)  has rms 1 and mean 0 in the real and in the
       imaginary part, also on the subsets of points where |Re Z| < |Z|/2 and where |Im Z| < |Z|/2
 
+Mechanism keys: R3 violations whose reported limits are exactly (2, number of points) - the structural signature of the
+"possibly a single resistor or capacitor" shortcut of suggest_num_RC_limits - carry the suffix
+':single-R-or-C-shortcut-limits' (open finding for ladder spectra with very small dispersion, see known_findings.json);
+every other R3 violation keeps the plain family key and is a VIOLATION.
+
 Latitude: which representation, extension or num_RC is picked is free as long as the clauses hold; nothing is demanded
 of a single unlucky seed beyond R1-R3; the drift clause is not evaluated above the lowest noise level (the drift is
 legitimately buried at 1 %); the fit error against the noise-free spectrum is reported, not judged.
@@ -37,11 +42,14 @@ from .. import monitors
 
 ID = "C10"
 RULE = (
-    "runs = (spectrum source, noise %, seed): the 19 bundled valid mock circuits (quick: a seed-rotated subset of cells; "
-    "thorough: all) x noise {0.02, 0.05, 0.2, 1} % (+ log-uniform 0.02..1 % in thorough) x >= 8 RNG seeds per cell drawn from "
-    "rng([seed, ...]); the 16 bundled *_INVALID drift counterparts at 0.02 % with the same seeds; random RC / RQ / mixed ladder "
+    "runs = (spectrum source, noise %, seed): the 19 bundled valid mock circuits x noise {0.02, 0.05, 0.2, 1} % x >= 8 RNG seeds "
+    "per cell drawn from rng([seed, ...]) (quick: 3 drift cells at 0.02 % + 6 cells at the other levels, rotated by VERIF_SEED, "
+    "one of them always CIRCUIT_8|9; thorough: all 76 cells x 10 seeds + log-uniform noise 0.02..1 % x 8 seeds per circuit); the "
+    "bundled *_INVALID drift counterparts at 0.02 % with the same seeds (thorough: all 16); random RC / RQ / mixed ladder "
     "circuits (R0 + 1..4 (RC)|(RQ) stages, time constants >= 0.6 decade apart inside the window, 4..7 decades at 10 points/"
-    "decade) passed to generate_mock_data as circuit description codes. Every run executes the default "
+    "decade; thorough also 'wide': up to 5 stages, 8|10|12 points/decade, time constants up to 0.1 decade from the window edge) "
+    "passed to generate_mock_data as circuit description codes, every run a different circuit; the noise model is probed on all "
+    "35 bundled definitions x 4 levels x 8 (24) seeds. Every run executes the default "
     "perform_kramers_kronig_test(num_procs=1) with recorders on single.suggest_num_RC / suggest_representation. A run is "
     "non-trivial when the test returned a result and the limits were observed; distinct = distinct (identifier, noise, seed)."
 )
